@@ -54,6 +54,7 @@ func (in *Interp) assume(c *Term) {
 	if c.IsFalse() || !in.feasible(c) {
 		panic(pathEnd{kind: "assumefalse"})
 	}
+	in.noteAssume(c)
 	in.addPC(c)
 }
 
